@@ -14,13 +14,19 @@ LEVEL_TEXT = ("Theorems in Coq (Props/C09.v): sigalg_table_consistent (OID <-> a
               "raw TBS with the SM2 default id) the signer used (created_verifies_or_refused: every request is refused at "
               "creation or self-verifies; MD2WithRSA and MD5WithRSA are refused); key-usage bit codec for all 511 non-empty usage sets, basic "
               "constraints (MaxPathLen -1/0/MaxPathLenZero) and DER INTEGER (serials of any sign/size, minimal length) for all inputs. "
-              "Differential run: ~500 (quick) / ~3000 (thorough) templates over all documented fields x signer {SM2, RSA-2048, P-256} x 22 "
+              "Relative to C01 (SM2Facts): created_verifies_sm2 (the signature an SM2 signer stores verifies under the issuer key, all keys, TBS, "
+              "random streams), created_rejects_changed_signature (checkSignature accepts exactly the strict DER{r,s} of pairs Sm2Verify accepts), "
+              "created_rejects_changed_tbs (same signature accepted for two TBS => SM3 digests agree mod n); RSA/ECDSA by contract. Byte-level "
+              "extension codecs over a proved DER layer (TLV, base-128, OIDs): SubjectAltName, ExtKeyUsage, CertificatePolicies, NameConstraints, "
+              "Subject/AuthorityKeyId round-trip for everything the builders accept; extension OIDs, parse arms and KeyUsage bit order tied to "
+              "the source. Differential run: ~400 (quick) / ~3000 (thorough) templates over all documented fields x signer {SM2, RSA-2048, P-256} x 22 "
               "algorithm values: parse-back of every field, verification under the issuer and under another key, and 5-8 thousand single-byte "
               "mutants per object (all positions in the thorough tier) plus ~25 arithmetic mutants of the signature VALUE "
               "((r,s+N), (r+N,s), s+2N, r-N, N-s for SM2, swapped, negated, zero-padded integers, long-form lengths, surplus element / byte; "
               "RSA: c+N, 0||c, N-c), each spliced into the object with lengths fixed up; the model predicts accept/reject and self-verification of every case.")
 LEVEL_NOTE = ("Field-by-field parse-back through encoding/asn1 and pkix is NOT proved; it is checked by the differential run only. The "
-              "cryptographic primitives are outside these theorems (SM2: C01; crypto/rsa, crypto/ecdsa trusted); 'verifies only under the "
+              "cryptographic primitives: SM2 relative to C01 (created_verifies_sm2 under SM2Facts; created_rejects_* by C01's characterisation / "
+              "collision clause), crypto/rsa and crypto/ecdsa by contract (created_verifies_by_contract); 'verifies only under the "
               "issuer' and 'any changed byte is rejected' are observed on every generated object, not proved. The signing model abstracts "
               "'bytes handed to Sign / bytes verified' to a scheme (primitive, hash, digest-or-raw); signingParamsForPublicKey's defaults, "
               "isRSAPSS, marshalPublicKey's OIDs and both switches are taken from the source by the translator, the control flow around them "
@@ -36,6 +42,8 @@ TRUSTED_BASE = [
     "translator target harness/cmd/gen/target_x509.go (go/parser): tables, OID literals, the checkSignature / isRSAPSS / curve / key-type switches of x509/x509.go -> coq/Gen/X509Tables.v",
     "model coq/X509/CreateModel.v written by hand from utils.go:CreateCertificate, x509.go:CreateCertificateRequest/CreateCRL/CreateRevocationList/signingParamsForPublicKey/signingInput/getSignatureAlgorithmFromAI/checkSignature/buildExtensions; tied by the correspondence run",
     "coq/X509/CreateRun.v: the runner evaluates a table computed by Coq from the model (theorem runner_table_is_the_model)",
+    "byte-level extension models coq/X509/ExtModel.v over coq/X509/DerLayer.v (encoding/asn1 by contract: how typed values are filled); tied by the E cases (real extension value bytes and parsed fields = model)",
+    "C01 (Props/C01.v) for the SM2 statements: premises SM2Facts (p, n prime, group law, order of G)",
     "extraction: ExtrOcamlBasic only; runner ocaml/x509/main.ml and ocaml/conv.ml.tmpl",
     "Go driver harness/cmd/c09 (template generator, field comparison, mutation regions); cached RSA test keys corpus/c09/rsa2048_*.pem",
     "encoding/asn1, crypto/x509/pkix, crypto/rsa, crypto/ecdsa, math/big: modelled by contract where the codecs need them, otherwise exercised by the run",
@@ -53,7 +61,10 @@ RULE = ("seeded generator (VERIF_SEED): every (kind, signer, algorithm) combinat
         "AIA/CRL distribution points, extra extensions, CSR attributes, CRL entries with extensions; per object: parse-back of every field, "
         "verification under issuer / other key, arithmetic mutants of the decoded signature value (congruent values mod the group order, "
         "non-canonical encodings), single-byte mutants (quick: every header octet with all 255 values + one mutant at every other "
-        "sampled position; thorough: all positions). Every T case is non-trivial; distinct = distinct case text")
+        "sampled position; thorough: all positions). E cases (400 quick / 4000 thorough): one extension each (SubjectAltName, ExtKeyUsage, "
+        "CertificatePolicies, NameConstraints, Subject/AuthorityKeyId) with byte strings of length 0..300 and 65536+, non-IA5 bytes, IPs of good "
+        "and bad length, OIDs with boundary arcs and invalid shapes, unknown EKU constants: the extension VALUE bytes and the fields parsed back "
+        "are compared with the byte-level Coq model. Every case is non-trivial; distinct = distinct case text")
 
 
 ALGO_ERRORS = ("x509:_requested_SignatureAlgorithm_does_not_match_private_key_type", "x509:_unknown_SignatureAlgorithm",
@@ -62,6 +73,12 @@ ALGO_ERRORS = ("x509:_requested_SignatureAlgorithm_does_not_match_private_key_ty
 
 
 def same(f, io, mo):
+    if f[0] == "E":
+        return io == mo              # extension bytes and the fields parsed back (or err create / err parse / PANIC)
+    return _same_T(f, io, mo)
+
+
+def _same_T(f, io, mo):
     """projected observables: was the (signer, algorithm) pair accepted, and does the object verify under the issuer.
     The model covers the algorithm decision only: a template refused for another reason (invalid UTF-8, year 10000,
     NextUpdate before ThisUpdate ...) or a created object that does not parse is outside it."""
@@ -107,11 +124,65 @@ def _insecure(f):
 
 
 def nontrivial(f):
-    return len(f) >= 7 and f[0] == "T"
+    return (len(f) >= 7 and f[0] == "T") or f[0] == "E"
+
+
+KNOWN_EKU_OIDS = {"2.5.29.37.0", "1.3.6.1.4.1.311.10.3.3", "2.16.840.1.113730.4.1"} | {"1.3.6.1.5.5.7.3.%d" % i for i in range(1, 10)}
+V4PREFIX = "00000000000000000000ffff"
+
+
+def _hexlist(s):
+    return [] if s == "-" else ["" if x == "." else x for x in s.split(",")]
+
+
+def _predicate_E(f, io):
+    """one extension: the fields parsed back equal the fields put in (inside the documented domain of the fields)"""
+    if not io or io[0] in ("PANIC", "HANG"):
+        if f[2] == "eku" and io and io[0] == "PANIC" and any(int(x) > 11 for x in f[3].split(",") if x != "-"):
+            return True, ""          # ExtKeyUsage value that is no constant of the package: buildExtensions panics by design
+        return False, "implementation " + (io[0] if io else "gave no result")
+    kind = f[2]
+    if kind == "ncx":
+        return True, ""              # an arbitrary NameConstraints value as extra extension: decided by comparison with the model
+    if io[:2] == ["err", "create"]:
+        return True, ""              # template refused: the property speaks about accepted templates
+    if io[:2] == ["err", "parse"]:
+        if kind == "san" and any(len(x) not in (8, 32) for x in _hexlist(f[5])):
+            return True, ""          # a net.IP that is neither 4 nor 16 bytes is no IP address
+        if kind in ("eku", "pol"):
+            oids = [o for o in (f[4] if kind == "eku" else f[3]).split(",") if o != "-"]
+            for o in oids:
+                a = [int(x) for x in o.split(".")]
+                if len(a) >= 2 and (40 * a[0] + a[1] >= 2 ** 31 or any(x >= 2 ** 31 for x in a)):
+                    return True, ""  # encoding/asn1 writes arcs >= 2^31 (incl. 40*first+second) but refuses to read them
+        return False, "created certificate does not parse (%s extension)" % kind
+    if io[0] != "ok" or len(io) < 3 or io[1] == "-":
+        return False, "extension missing from the created certificate: " + " ".join(io)
+    if kind == "san":
+        ips = [x[24:] if len(x) == 32 and x.startswith(V4PREFIX) else x for x in _hexlist(f[5])]
+        want = [_hexlist(f[3]), _hexlist(f[4]), ips]
+        got = [_hexlist(io[2]), _hexlist(io[3]), _hexlist(io[4])]
+    elif kind == "eku":
+        unknown = [] if f[4] == "-" else f[4].split(",")
+        if any(o in KNOWN_EKU_OIDS for o in unknown):
+            return True, ""          # an "unknown" usage that is a known one comes back as the known constant
+        want = [f[3], unknown]
+        got = [io[2], [] if io[3] == "-" else io[3].split(",")]
+    elif kind == "pol":
+        want, got = [f[3]], [io[2]]
+    elif kind == "nc":
+        want, got = [f[3], _hexlist(f[4])], [io[2], _hexlist(io[3])]
+    else:
+        want, got = [f[3]], [io[2]]
+    if want != got:
+        return False, "%s extension does not parse back to the template fields" % kind
+    return True, ""
 
 
 def predicate(f, io):
     """the property evaluated on what /repo did (no model involved)"""
+    if f[0] == "E":
+        return _predicate_E(f, io)
     if not io or io[0] in ("PANIC", "HANG"):
         return False, "implementation " + (io[0] if io else "gave no result")
     if io[0] != "ok" or len(io) < 11:
@@ -145,6 +216,8 @@ def predicate(f, io):
 
 def classify(f, io):
     """kind:signer:created|rejected[:crossfamily|:insecure][:noverify][:diff][:algsurvivor][:survivor]"""
+    if f[0] == "E":
+        return "E:%s:%s" % (f[2], " ".join(io[:2]) if io and io[0] != "ok" else "ok")
     base = "%s:%s" % (f[2], f[3])
     if not io or io[0] != "ok" or len(io) < 11:
         return base + ":" + (io[0] if io else "none")
